@@ -92,7 +92,7 @@ func orderTable(rep *kit.Report, phase string) {
 
 func main() {
 	rep := kit.NewReport("C09", "exploration",
-		"every block of root + <=3 (thorough 4) lines from a 25-line menu of standard directives (two rewrite and two header lines included) x every permutation of its lines that keeps same-directive lines in relative order x 20 requests; full response (status, header multiset minus Date, decoded body) and access-log line must equal those of the canonically ordered block; plus a table of ~100 documented ordered pairs checked against casket.ValidDirectives(\"http\") before and after a rejected load; distinct_nontrivial = outcome classes")
+		"every block of root + <=3 (thorough 4) lines from a 26-line menu of standard directives (two rewrite and two header lines included) x every permutation of its lines that keeps same-directive lines in relative order x 20 requests; full response (status, header multiset minus Date, decoded body) and access-log line must equal those of the canonically ordered block; plus a table of ~100 documented ordered pairs checked against casket.ValidDirectives(\"http\") before and after a rejected load; distinct_nontrivial = outcome classes")
 	kit.Init()
 	kit.Log.Off.Store(true)
 	base := kit.TempDir("c09")
@@ -161,6 +161,8 @@ func main() {
 		"push /pub /s.txt",
 		"fastcgi /fc unix:" + fsock + " {\n\t\text .php\n\t\tsplit .php\n\t\tindex i.php\n\t}",
 		"header /fc X-C 3",
+		// a quoted argument continued over a line break with a backslash: whatever is written on the next line is its own directive
+		"redir \"/never\\\nthere\" /new 302",
 	}
 	canonPos := map[string]int{}
 	for i, d := range casket.ValidDirectives("http") {
@@ -245,7 +247,26 @@ func main() {
 		want, err := run(cf0, lf0)
 		os.Remove(lf0)
 		if err != nil {
-			rep.Broken("canonical block does not load: %v\n%s", err, cf0)
+			// a block that loads in one order of its lines and not in the canonical one is order-dependent too
+			loads := ""
+			kit.Perms(n, func(p []int) {
+				if loads != "" {
+					return
+				}
+				lf := filepath.Join(base, fmt.Sprintf("log-%d-probe", si))
+				if l, e := kit.Load(render(p, lf), filepath.Join(base, "Casketfile")); e == nil {
+					l.Close()
+					loads = render(p, lf)
+				}
+				os.Remove(lf)
+			})
+			if loads == "" {
+				// every line of the menu is a valid directive line (they all load on the unchanged tree)
+				rep.Violation("C09/valid-block-rejected-in-every-order", "a block of valid directive lines does not load in any order: "+err.Error(), c09case{cf0, "", "", "", ""})
+				return true
+			}
+			rep.Violation("C09/permuted-block-rejected", "a block loads in one order of its lines and not in another: "+err.Error(), c09case{loads, cf0, "", "", ""})
+			return true
 		}
 		local := map[string]int64{}
 		pi := 0
